@@ -21,6 +21,43 @@ use crate::tape::Tape;
 
 /// consumer side runs with the default Rust thread stack (2 MiB): a decoder that
 /// overflows it would kill a real server thread, and kills this worker
+thread_local! {
+    /// panics of the library's own reporting functions (find_params / find_queries) met while the
+    /// harness prepares a world: recorded here, turned into violations when the world ends
+    static API_PANICS: std::cell::RefCell<Vec<crate::exec::PanicInfo>> = const { std::cell::RefCell::new(Vec::new()) };
+}
+
+fn params_of(tx: &tir::Tx) -> BTreeMap<String, Type> {
+    match guarded(|| tx3_tir::reduce::find_params(tx)) {
+        Ok(m) => m,
+        Err(p) => {
+            API_PANICS.with(|v| v.borrow_mut().push(p));
+            BTreeMap::new()
+        }
+    }
+}
+
+fn queries_of(tx: &tir::Tx) -> BTreeMap<String, tir::InputQuery> {
+    match guarded(|| tx3_tir::reduce::find_queries(tx)) {
+        Ok(m) => m,
+        Err(p) => {
+            API_PANICS.with(|v| v.borrow_mut().push(p));
+            BTreeMap::new()
+        }
+    }
+}
+
+/// `also`: a second property under which a panic of the reporting functions counts in this world
+fn drain_api_panics(rep: &mut WorldReport, also: Option<(&str, &str)>) {
+    let ps: Vec<crate::exec::PanicInfo> = API_PANICS.with(|v| v.borrow_mut().drain(..).collect());
+    for p in ps {
+        rep.violate("C14", "P1-panic", p.site(), format!("find_params / find_queries panicked on a client-supplied IR at {}:{}: {}", p.file, p.line, p.message));
+        if let Some((prop, class)) = also {
+            rep.violate(prop, class, p.site(), format!("reporting the parameters of the IR in the request panicked at {}:{}: {}", p.file, p.line, p.message));
+        }
+    }
+}
+
 fn in_consumer<T: Send, F: FnOnce() -> T + Send>(hseed: u64, f: F) -> T {
     std::thread::scope(|s| {
         std::thread::Builder::new()
@@ -61,7 +98,7 @@ fn produce_random(t: &mut Tape, world_no: u64) -> Produced {
         g.tx(depth)
     };
     let mut args = ArgMap::new();
-    for (k, ty) in tx3_tir::reduce::find_params(&tx) {
+    for (k, ty) in params_of(&tx) {
         let v = match ty {
             Type::Int => ArgValue::Int(int_boundary(t)),
             Type::Bool => ArgValue::Bool(t.chance(1, 2)),
@@ -77,7 +114,7 @@ fn produce_random(t: &mut Tape, world_no: u64) -> Produced {
         args.insert(k, v);
     }
     let mut inputs: BTreeMap<String, HashSet<Utxo>> = BTreeMap::new();
-    for (q, _) in tx3_tir::reduce::find_queries(&tx) {
+    for (q, _) in queries_of(&tx) {
         let mut set = HashSet::new();
         set.insert(crate::gen_tir::some_utxo(t, 1));
         inputs.insert(q, set);
@@ -149,7 +186,7 @@ fn produce_generated(t: &mut Tape, world_no: u64, rep: &mut WorldReport) -> Opti
     // `into_datum` of a multi-UTxO set takes the hash-first element: an entropy effect that must
     // not be charged to the wire format, so templates that read a datum get singleton sets
     let reads_datum = format!("{tx:?}").contains("IntoDatum");
-    for (qi, (q, _)) in tx3_tir::reduce::find_queries(&tx).iter().enumerate() {
+    for (qi, (q, _)) in queries_of(&tx).iter().enumerate() {
         let mut set = HashSet::new();
         let n = if reads_datum { 1 } else { 1 + t.index(3) };
         for j in 0..n {
@@ -443,13 +480,13 @@ fn conflicting_param_names(tx: &tir::Tx) -> std::collections::BTreeSet<String> {
 
 fn summarize(tx: &tir::Tx) -> (BTreeMap<String, Type>, Vec<String>) {
     let ambiguous = conflicting_param_names(tx);
-    let mut params = tx3_tir::reduce::find_params(tx);
+    let mut params = params_of(tx);
     for (k, ty) in params.iter_mut() {
         if ambiguous.contains(k) {
             *ty = Type::Undefined;
         }
     }
-    (params, tx3_tir::reduce::find_queries(tx).keys().cloned().collect())
+    (params, queries_of(tx).keys().cloned().collect())
 }
 
 pub fn world_c11(_tier: Tier, world_no: u64, mut tape: Tape) -> WorldReport {
@@ -463,6 +500,7 @@ pub fn world_c11(_tier: Tier, world_no: u64, mut tape: Tape) -> WorldReport {
         if let Err(p) = guarded(|| inner_c11(world_no, &mut tape, &mut rep)) {
             rep.harness_error = Some(format!("harness panic: {} at {}:{}", p.message, p.file, p.line));
         }
+        drain_api_panics(&mut rep, None);
         rep.tape = tape.data.clone();
         rep
     })
@@ -699,7 +737,7 @@ fn inner_c11(world_no: u64, t: &mut Tape, rep: &mut WorldReport) {
         "producer_hash_seed": "world seed",
         "consumer_hash_seed": s2,
         "consumer_outcome": outcome,
-        "source": if prod.source.len() < 1500 { prod.source.clone() } else { format!("{}…", &prod.source[..1500]) },
+        "source": crate::tape::clip(&prod.source, 1500),
         "wire_hex_head": hex::encode(&wire[..wire.len().min(48)]),
     }));
 }
@@ -724,7 +762,7 @@ fn back_end_stratum(t: &mut Tape, rep: &mut WorldReport, tx: &tir::Tx, prod: &Pr
     comp.record = false;
     // type-directed args for whatever the damaged IR now asks for
     let mut args = prod.args.clone();
-    for (k, ty) in tx3_tir::reduce::find_params(tx) {
+    for (k, ty) in params_of(tx) {
         if args.contains_key(&k) {
             continue;
         }
@@ -838,6 +876,7 @@ pub fn world_ir(_tier: Tier, world_no: u64, mut tape: Tape) -> WorldReport {
             }
             Err(p) => rep.harness_error = Some(format!("harness panic: {} at {}:{}", p.message, p.file, p.line)),
         }
+        drain_api_panics(&mut rep, None);
         rep.tape = tape.data.clone();
         rep
     })
@@ -1012,6 +1051,7 @@ pub fn world_c16(_tier: Tier, world_no: u64, mut tape: Tape) -> WorldReport {
         if let Err(p) = guarded(|| inner_c16(world_no, &mut tape, &mut rep)) {
             rep.harness_error = Some(format!("harness panic: {} at {}:{}", p.message, p.file, p.line));
         }
+        drain_api_panics(&mut rep, Some(("C16", "J3-panic")));
         rep.tape = tape.data.clone();
         rep
     })
@@ -1062,7 +1102,7 @@ fn inner_c16(world_no: u64, t: &mut Tape, rep: &mut WorldReport) {
     let Some(prod) = produce(t, world_no, rep) else { return };
     let lowered_only = matches!(prod.stage, "lowered");
     let (bytes, version) = tx3_tir::encoding::to_bytes(&prod.tx);
-    let mut declared = tx3_tir::reduce::find_params(&prod.tx);
+    let mut declared = params_of(&prod.tx);
     // a name the IR references with two types has no single declared type (which one is reported
     // follows hash order): the client model leaves such names alone
     let ambiguous = conflicting_param_names(&prod.tx);
